@@ -26,11 +26,12 @@ LEVEL_TEXT = ('static analysis: (D1) do_segmetrics interpreted with tagged stati
               ' overlapping segments is tested once, with its first residual; p_adjust_bh, interpreted on all orderings of four p-values with and'
               ' without ties (tied p-values share the largest rank), equals the Benjamini-Hochberg step-up formula min(1, min_{j>=i} n p_(j) / '
               'j). The per-segment bins are looked up per chromosome (by_shared_chroms pairing, C07-D6 rule) and the estimators behind --bivar / '
-              '--mad / --iqr equal their formulas on literal vectors (C19-D6 rule). (CLI) the `segmetrics / bintest` command line(s), through a '
-              'model of argparse built from the declarations in commands.py and the real _cmd_ body interpreted with readers, library step and '
-              'writers stubbed: each of the twelve statistic flags lands in its own list alone, alpha / bootstrap count / smoothing / --drop-low-'
-              "coverage and bintest's -a / -t reach the statistics functions as given. Does not decide numerical agreement of the remaining "
-              "statistics with reference implementations, nor that the CI lies inside the bins' range.")
+              '--mad / --iqr equal their formulas on literal vectors (C19-D6 rule). Which bins --drop-low-coverage leaves out: drop_low_coverage '
+              'on literal tables (C15 LOW rule). (CLI) the `segmetrics / bintest` command line(s), through a model of argparse built from the '
+              'declarations in commands.py and the real _cmd_ body interpreted with readers, library step and writers stubbed: each of the twelve'
+              " statistic flags lands in its own list alone, alpha / bootstrap count / smoothing / --drop-low-coverage and bintest's -a / -t "
+              'reach the statistics functions as given. Does not decide numerical agreement of the remaining statistics with reference '
+              "implementations, nor that the CI lies inside the bins' range.")
 TECHNIQUE = "abstract interpretation with tagged statistic summaries (argument provenance), exact rational terms in alpha, seed-dominance rule, exact small-scope evaluation of Benjamini-Hochberg"
 
 SM = "cnvlib.segmetrics"
